@@ -62,6 +62,7 @@ func buildE2(w *World) *e2env {
 	add := func(name string, mk func(w *World) *Payload) { env.syms = append(env.syms, e2sym{name, mk}) }
 	fixed := func(name string, p *Payload) { p.Hash(); add(name, func(*World) *Payload { return p }) }
 	h0 := sc.StartHeight + 1
+	envTS := uint64(w.now.UnixNano()) + 1 // timestamps chosen by the environment are relative to the scenario's epoch
 	txFor := func(kind byte, v byte) []H {
 		// proposals of different views carry different transactions (A: 101 / 103, B: 102+103 / 101+102)
 		switch {
@@ -230,13 +231,13 @@ func buildE2(w *World) *e2env {
 					sigs(sp.PreCommits, 'P', dbft.PreCommitType, func(s []byte) any { return &preCommitBody{s} }, "precommit")
 				}
 				if sp.CVs >= 1 && (sp.CVViews == 0 || int(v) < sp.CVViews) {
-					fixed(fmt.Sprintf("h%d v%d change view to %d from %d", h, v, v+1, i), mk(dbft.ChangeViewType, i, &changeView{newView: v + 1, reason: dbft.CVTimeout, ts: 1}))
+					fixed(fmt.Sprintf("h%d v%d change view to %d from %d", h, v, v+1, i), mk(dbft.ChangeViewType, i, &changeView{newView: v + 1, reason: dbft.CVTimeout, ts: envTS}))
 				}
 				if sp.CVs >= 2 {
-					fixed(fmt.Sprintf("h%d v%d change view to %d from %d", h, v, v+2, i), mk(dbft.ChangeViewType, i, &changeView{newView: v + 2, reason: dbft.CVTimeout, ts: 1}))
+					fixed(fmt.Sprintf("h%d v%d change view to %d from %d", h, v, v+2, i), mk(dbft.ChangeViewType, i, &changeView{newView: v + 2, reason: dbft.CVTimeout, ts: envTS}))
 				}
 				if sp.RecReq && h == h0 {
-					fixed(fmt.Sprintf("h%d v%d recovery request from %d", h, v, i), mk(dbft.RecoveryRequestType, i, &recReq{ts: 1}))
+					fixed(fmt.Sprintf("h%d v%d recovery request from %d", h, v, i), mk(dbft.RecoveryRequestType, i, &recReq{ts: envTS}))
 				}
 			}
 			if sp.Bundles && h == h0 {
@@ -245,7 +246,7 @@ func buildE2(w *World) *e2env {
 				if v > 0 {
 					rm := &recMsg{}
 					for _, i := range peers {
-						rm.AddPayload(&Payload{typ: dbft.ChangeViewType, height: h, view: v - 1, idx: uint16(i), body: &changeView{newView: v, reason: dbft.CVTimeout, ts: 1}})
+						rm.AddPayload(&Payload{typ: dbft.ChangeViewType, height: h, view: v - 1, idx: uint16(i), body: &changeView{newView: v, reason: dbft.CVTimeout, ts: envTS}})
 					}
 					fixed(fmt.Sprintf("h%d v%d recovery bundle: %d change views for view %d", h, v, len(peers), v), mk(dbft.RecoveryMessageType, sender, rm))
 				}
@@ -282,7 +283,7 @@ func buildE2(w *World) *e2env {
 				}
 			}
 			if sp.BadIndex && h == h0 && v == 0 {
-				fixed(fmt.Sprintf("h%d v%d change view from out-of-range index %d", h, v, n), mk(dbft.ChangeViewType, n, &changeView{newView: 1, reason: dbft.CVTimeout, ts: 1}))
+				fixed(fmt.Sprintf("h%d v%d change view from out-of-range index %d", h, v, n), mk(dbft.ChangeViewType, n, &changeView{newView: 1, reason: dbft.CVTimeout, ts: envTS}))
 				fixed(fmt.Sprintf("h%d v%d commit from out-of-range index %d", h, v, n+3), mk(dbft.CommitType, n+3, &commitBody{mkSig('B', 99, H(1))}))
 			}
 		}
@@ -293,7 +294,7 @@ func buildE2(w *World) *e2env {
 				continue
 			}
 			fixed(fmt.Sprintf("old height commit from %d", i), &Payload{typ: dbft.CommitType, height: h0 - 1, view: 0, idx: uint16(i), body: &commitBody{mkSig('B', i, H(7))}})
-			fixed(fmt.Sprintf("old height change view from %d", i), &Payload{typ: dbft.ChangeViewType, height: h0 - 1, view: 0, idx: uint16(i), body: &changeView{newView: 1, ts: 1}})
+			fixed(fmt.Sprintf("old height change view from %d", i), &Payload{typ: dbft.ChangeViewType, height: h0 - 1, view: 0, idx: uint16(i), body: &changeView{newView: 1, ts: envTS}})
 			break
 		}
 	}
